@@ -7,6 +7,97 @@ HERE = os.path.dirname(os.path.abspath(__file__))
 ROOT = os.path.dirname(HERE)
 
 CLAIMED = {
+    "C01": {
+        "text": "Machine-checked proofs (Coq 8.16.1, closed under the global context) about the executable model of the "
+                "extraction pipeline (tracker, profiler, shexing, ShExC serialiser), for ALL graphs and configurations: "
+                "the class profile holds exactly the declarative counts occ/class_count of Spec/Counts.v (Props/P1.v), and "
+                "every figure of the output (header, constraint lines, comments, direct and inverse, whatever the "
+                "threshold and switches) is the count of one profile entry of the same direction, property, kind and "
+                "original cardinality, or -- for the merged NONLITERAL alternative only -- the sum of two entries "
+                "(Props/C01.v, Props/ShexStage.v); binary64 ratios of n <= N never exceed 1.  The model is tied to "
+                "/repo on every run: its ShExC text equals the real Shaper's byte for byte on every generated case and "
+                "the property's projection (all figures) is compared; an independent oracle recomputes every printed "
+                "figure from the abstract triples.",
+        "design": "DESIGN.md sections 0a, 7 (C01), 11",
+        "note": "Trusted: Coq kernel; gen_consts.py; extraction (ExtrOcamlBasic, ExtrOcamlString) cross-checked against "
+                "vm_compute; Lib/Bin64 software binary64 validated against CPython; the harness (generator, canonicaliser, "
+                "ratio-printing shim).  The statement is false for the NONLITERAL merge and for classes sharing a local "
+                "name: refuted lemmas + findings C01-F1..F3.  Input through the N-Triples reader (C06's subject).",
+        "technique": "Coq proof by induction over folds / dictionaries (profile = declarative counts; figures = profile "
+                     "entries) + byte-exact differential correspondence of the extracted model + recount oracle",
+    },
+    "C02": {
+        "text": "Machine-checked proofs for ALL profiles, thresholds and switch settings that the shexing stage keeps a "
+                "(direction, property, value class) key iff some candidate of that key reaches the threshold -- with "
+                "CPython's binary64 comparison iff the LARGEST count of the key does (boundary kept) --, never keeps a key "
+                "twice, and yields one shape per class key of the profile with the class count (Props/C02.v); with "
+                "Props/P1.v the counts are those of the data.  Tied to /repo by the byte-exact correspondence of the "
+                "extracted model; an independent exact-rational oracle recomputes every key set from the triples.",
+        "design": "DESIGN.md sections 0a, 7 (C02), 11",
+        "note": "Trusted base as C01.  For value class 'nonliteral' the largest candidate count is the union count only "
+                "when the instances with an IRI value and those with a BNode value are nested: refuted otherwise "
+                "(C02_split_nonliteral_refuted, finding C02-F1).  With remove_empty_shapes only the soundness direction "
+                "is proved (C02_keys_remove_partial).",
+        "technique": "Coq proof (selection invariants of the two merge loops, monotone binary64 ratio) + differential "
+                     "correspondence + exact-rational recount oracle on every k/n threshold boundary",
+    },
+    "C04": {
+        "text": "Machine-checked proof that the shexing stage of the model -- in which every unguarded dereference, "
+                "index, key lookup and raise of the Python code is an explicit error outcome -- returns a result for "
+                "ALL profiles, counts, thresholds and switch settings with disjunctions disabled (default) whenever the "
+                "profile's type keys are renderable, plus the exact characterisation of the only failures of "
+                "tune_token and of the empty-shape cleaning loop (Props/C04.v).  Tied to /repo by comparing the "
+                "outcome (result / exception class) of the real shex_graph with the model's on C01's graphs and "
+                "adversarial mixes; SHACL output and profile_graph are exercised on the implementation only.",
+        "design": "DESIGN.md sections 0a, 7 (C04), 11",
+        "note": "Trusted base as C01.  Not modelled (observed only): SHACL serialisation crashes, profile_graph, input "
+                "readers other than N-Triples.  Five crashes found this way were repaired in /repo (fix: commits, "
+                "known_findings.json status fixed).",
+        "technique": "Coq totality proof over an error-explicit model + differential outcome correspondence + crash "
+                     "search over adversarial graphs x configurations x {ShExC, SHACL, profile_graph}",
+    },
+    "C12": {
+        "text": "Machine-checked proofs for ALL profiles and configurations: with thr1 <= thr2 (CPython binary64 "
+                "comparison, class sizes < 2^53; also exact rationals) every shape and key present at thr2 is present at "
+                "thr1 (remove_empty_shapes off; on, on the domain where no reference points to an empty shape), every "
+                "figure is a profile entry independent of the threshold, and the threshold reaches the pipeline only "
+                "through the shexing stage (Props/C12.v).  Tied to /repo by the correspondence of the extracted model and "
+                "by a metamorphic oracle over fresh real Shapers at all ordered pairs of a k/n threshold grid.",
+        "design": "DESIGN.md sections 0a, 7 (C12), 11",
+        "note": "Trusted base as C01.  Refuted and recorded: the figure of the merged NONLITERAL alternative changes "
+                "with the threshold (C12-F1); a reference to a shape that ends up empty is deleted outright "
+                "(C12_remove_key_refuted; needs a shape-map label without triples).",
+        "technique": "Coq proof (transitivity of the binary64 order proved from a software model of IEEE division; "
+                     "key-set preservation through both merges) + differential correspondence + metamorphic oracle",
+    },
+    "C13": {
+        "text": "Machine-checked equations for ALL profiles/graphs: disable_comments, allow_opt_cardinality, "
+                "disable_exact_cardinality and all_instances_are_compliant_mode change the result of the shexing stage "
+                "exactly by mapping drop_comments / ?->* / {k>1}->+ / the per-statement relaxation over the statements "
+                "(errors coincide); disable_or_statements=False only replaces merged statements by disjunctions of the "
+                "same alternatives; instances_report_mode and the namespaces dictionary never change the shapes "
+                "(Props/C13.v).  Tied to /repo by the byte-exact correspondence and by a one-factor-at-a-time "
+                "metamorphic oracle on real runs, including file vs string output beyond the 5000-line buffer.",
+        "design": "DESIGN.md sections 0a, 7 (C13), 11",
+        "note": "Trusted base as C01.  decimals is rendered by the harness shim (not in the model): checked numerically; "
+                "decimals=0 truncates (finding C13-F1, pinned by a golden file).  The all-compliant equation holds on "
+                "O4_dom (refuted outside: a relaxed statement's comment keeps {3} while the line shows +).",
+        "technique": "Coq proof of commuting equations between two configurations + differential correspondence + "
+                     "pairwise metamorphic oracle",
+    },
+    "C14": {
+        "text": "Machine-checked proofs for ALL class entries, thresholds and switches: with inverse_paths the direct "
+                "statements, instance count and label of a shape are those of the run without it, and the inverse "
+                "statements are exactly what the direct strategy computes from the inverse features, flagged '^' "
+                "(Props/C14.v; premise: fle is a total preorder on the class's probabilities, proved for binary64); the "
+                "profiler's direct features do not depend on the flag (Props/P1.v).  Tied to /repo by the correspondence "
+                "and by a three-run metamorphic oracle (G with, G without, reverse(G) without).",
+        "design": "DESIGN.md sections 0a, 7 (C14), 11",
+        "note": "Trusted base as C01.  The reversed-graph comparison is strict on graphs without blank nodes (blank-node "
+                "subjects of incoming links get no shape references by design).",
+        "technique": "Coq proof (filtering commutes with the stable sort; direct/inverse code paths related by a swap) + "
+                     "differential correspondence + metamorphic oracle",
+    },
     "C20": {
         "text": "Machine-checked proof (Coq 8.16.1, closed under the global context) that the model of Shaper.__init__'s "
                 "six checks plus the shape-map stage accepts exactly the configurations of the property's reference "
